@@ -103,7 +103,7 @@ def value_grid_correspondence():
     EX = Namespace('ex', 'http://example.org/')
     PROV = M.PROV
     attrs = [EX['k'], PROV['type'], PROV['location'], PROV['value'], PROV['label'], PROV['role'], PROV['time'],
-             PROV['startTime'], EX['mytime'], EX['ünï']]
+             PROV['startTime'], EX['mytime'], EX['ünï'], PROV['generatedAtTime'], PROV['timeless']]
     vals = ["", "plain", "prov:Person", 'quo"te', "two\nlines", 5, -2 ** 70, 0.5, 1e300, True, False,
             datetime.datetime(2012, 3, 31, 9, 21), datetime.datetime(2012, 3, 31, 9, 21, tzinfo=datetime.timezone.utc),
             Identifier('http://u/x'), Identifier('prov:weird'), EX['qv'], PROV['Person'], M.Literal('hi', langtag='en'),
